@@ -214,7 +214,9 @@ impl<'a> G<'a> {
         if !quantifiable || self.r.chance(1, 2) {
             return a;
         }
-        let (min, max) = match self.r.below(8) {
+        let (min, max) = match self.r.below(9) {
+            // counts above the optimizer's unroll threshold (the loop itself runs the mandatory iterations)
+            8 => { let n = 6 + self.r.below(3) as u32; (n, if self.r.chance(1, 4) { None } else { Some(n + self.r.below(3) as u32) }) }
             0 => (0, None),
             1 => (1, None),
             2 => (0, Some(1)),
@@ -680,6 +682,10 @@ fn spec_family() -> Vec<(Ast, &'static str)> {
         (Ast::Seq(vec![Ast::WordB(false), Ast::Class { inv: false, items: vec![Item::Esc('w')] }]), false),
         (Ast::Modifier { on: Fl { i: true, m: false, s: false }, off: Fl::default(), body: Box::new(Ast::Seq(vec![ch('a'), ch('B')])) }, false),
         (Ast::Seq(vec![Ast::Bol, Ast::Any, Ast::Eol]), false),
+        (q(ch('a'), 6, Some(7), true), false),
+        (Ast::Seq(vec![q(ch('a'), 6, Some(7), false), Ast::Eol]), false),
+        (Ast::Seq(vec![q(Ast::Class { inv: false, items: vec![Item::Esc('w')] }, 6, Some(8), true), ch('x')]), false),
+        (q(grp(ch('a')), 6, Some(7), true), false),
     ];
     type Ctx = fn(Ast) -> Ast;
     let contexts: Vec<Ctx> = vec![
@@ -706,7 +712,7 @@ fn spec_family() -> Vec<(Ast, &'static str)> {
     }
     out
 }
-const FAMILY_HAYS: &[&str] = &["", "abx", "bax", "ABx", "abcx", "xab", "aab", "aa", "ba", "Ks", "kS", "\u{212A}s", "a\nb", "xabx", "b", "ab", "aB", "xx"];
+const FAMILY_HAYS: &[&str] = &["", "abx", "bax", "ABx", "abcx", "xab", "aab", "aa", "ba", "Ks", "kS", "\u{212A}s", "a\nb", "xabx", "b", "ab", "aB", "xx", "aaaaaaaaaa", "baaaaaaax"];
 
 pub fn cmd_spec(args: &[String]) {
     let seed: u64 = args[0].parse().unwrap();
@@ -758,6 +764,24 @@ pub fn cmd_spec(args: &[String]) {
                         }
                         let pos = g.r.below(v.len() as u64 + 1) as usize;
                         v.insert(pos, Ast::NonCap(Box::new(Ast::Alt(inner))));
+                    }
+                    // sometimes a factor is a lookahead, positive or negative, over one to three terms of atoms
+                    if g.r.chance(1, 3) {
+                        let ng = 1 + g.r.below(3);
+                        let mut inner = vec![];
+                        for _ in 0..ng {
+                            let k2 = if ng == 1 { 1 + g.r.below(3) } else { g.r.below(3) };
+                            let mut w2: Vec<Ast> = (0..k2).map(|_| match g.r.below(7) {
+                                0 => Ast::Any,
+                                1 => g.r.pick(&[Ast::Bol, Ast::Eol, Ast::WordB(false), Ast::WordB(true)]).clone(),
+                                _ => Ast::Char(*g.r.pick(ALT_ATOMS)),
+                            }).collect();
+                            inner.push(if w2.len() == 1 { w2.pop().unwrap() } else { Ast::Seq(w2) });
+                        }
+                        let body = if inner.len() == 1 { inner.pop().unwrap() } else { Ast::Alt(inner) };
+                        let pos = g.r.below(v.len() as u64 + 1) as usize;
+                        let neg = g.r.chance(1, 2);
+                        v.insert(pos, Ast::Look { ahead: true, neg, body: Box::new(body) });
                     }
                     alts.push(if v.len() == 1 { v.pop().unwrap() } else { Ast::Seq(v) });
                 }
@@ -934,6 +958,13 @@ pub fn cmd_spec(args: &[String]) {
             let mut t = String::new();
             for _ in 0..len {
                 t.push_str(*r.pick(HAY_ALPHA));
+            }
+            if !class_mode && r.chance(1, 6) {
+                // a run of one character (counted loops), optionally framed
+                let c = *r.pick(&["a", "b", "é", "K", "1"]);
+                t = String::from(*r.pick(&["", "x", "b"]));
+                for _ in 0..(5 + r.below(8)) { t.push_str(c); }
+                t.push_str(*r.pick(&["", "x", "b", "a"]));
             }
             if class_mode {
                 if (hi as usize) >= class_probes.len() { break; }
